@@ -347,6 +347,141 @@ func (c *Ctx) runOptDeleg() {
 		}
 	}
 	c.R.Note("OPTDELEG", "%d delegation(s) between option constructors", n)
+	c.optRoles = roles
+	c.runValueArgs()
+}
+
+// sliceElems: the values that can be elements of slice v (a literal's stores, appended values, through phis).
+func sliceElems(v ssa.Value, d int, seen map[ssa.Value]bool) []ssa.Value {
+	if v == nil || d > 8 || seen[v] {
+		return nil
+	}
+	seen[v] = true
+	switch x := v.(type) {
+	case *ssa.Slice:
+		var out []ssa.Value
+		if al, ok := x.X.(*ssa.Alloc); ok {
+			for _, ref := range *al.Referrers() {
+				if ia, ok := ref.(*ssa.IndexAddr); ok {
+					for _, r2 := range *ia.Referrers() {
+						if st, ok := r2.(*ssa.Store); ok && st.Addr == ssa.Value(ia) {
+							out = append(out, st.Val)
+						}
+					}
+				}
+			}
+			return out
+		}
+		return sliceElems(x.X, d+1, seen)
+	case *ssa.Phi:
+		var out []ssa.Value
+		for _, e := range x.Edges {
+			out = append(out, sliceElems(e, d+1, seen)...)
+		}
+		return out
+	case *ssa.Call:
+		if core.CalleeName(x.Common()) == "builtin.append" {
+			out := sliceElems(x.Common().Args[0], d+1, seen)
+			if len(x.Common().Args) > 1 {
+				out = append(out, sliceElems(x.Common().Args[1], d+1, seen)...)
+			}
+			return out
+		}
+	}
+	return nil
+}
+
+// runValueArgs (OPTDELEG): where the library itself turns a *Value into an option (Value.Arg, ValueSet.Args), the option
+// constructor it calls receives the value's own subtype at its subtype parameter and its own name at its name
+// parameter; a constructor that cannot carry a subtype is used only where the value's subtype was tested empty.
+func (c *Ctx) runValueArgs() {
+	p := c.P
+	roles := c.optRoles
+	n := 0
+	for _, f := range p.ArgFuncs() {
+		if isArgCtor(core.Outer(f)) {
+			continue
+		}
+		for _, ci := range core.Calls(f) {
+			cal := ci.Common().StaticCallee()
+			if !isArgCtor(cal) {
+				continue
+			}
+			// the *Value(s) whose reflect value is handed over
+			bases := map[string]ssa.Value{}
+			var look func(v ssa.Value, d int)
+			look = func(v ssa.Value, d int) {
+				if v == nil || d > 6 {
+					return
+				}
+				v = core.Strip(v)
+				if mi, ok := v.(*ssa.MakeInterface); ok {
+					v = core.Strip(mi.X)
+				}
+				if cl, ok := v.(*ssa.Call); ok && core.CalleeName(cl.Common()) == "(reflect.Value).Interface" {
+					if fr, ok := core.AsFieldLoad(cl.Common().Args[0]); ok && fr.Field == "Value" && fr.Owner == "Value" {
+						bases[core.Path(elemOf(fr.Base))] = elemOf(fr.Base)
+					}
+					return
+				}
+				if _, isSlice := v.Type().Underlying().(*types.Slice); isSlice {
+					for _, e := range sliceElems(v, 0, map[ssa.Value]bool{}) {
+						look(e, d+1)
+					}
+				}
+			}
+			for _, a := range ci.Common().Args {
+				look(a, 0)
+			}
+			if len(bases) == 0 {
+				continue
+			}
+			n++
+			bad := ""
+			for bp, base := range bases {
+				for _, role := range []string{"subtype", "name"} {
+					field := map[string]string{"subtype": "Subtype", "name": "Name"}[role]
+					idx := -1
+					for i := range cal.Params {
+						if roles[cal][i] == role {
+							idx = i
+						}
+					}
+					if idx >= 0 && idx < len(ci.Common().Args) {
+						fr, ok := core.AsFieldLoad(core.Strip(ci.Common().Args[idx]))
+						if !ok || fr.Field != field || fr.Owner != "Value" || core.Path(elemOf(fr.Base)) != bp {
+							bad = fmt.Sprintf("%s's %s parameter receives %s instead of the %s of %s", cal.Name(), role, core.Path(ci.Common().Args[idx]), field, bp)
+						}
+						continue
+					}
+					if role != "subtype" {
+						continue
+					}
+					// the constructor cannot carry a subtype: only where the value's subtype is known to be empty
+					empty := false
+					for _, l := range p.ExpandLitsKeep(core.Lits(core.Guards(ci.Block()))) {
+						if l.Kind == "cmp" && l.Op == token.EQL && l.Pol {
+							for _, pr := range [][2]ssa.Value{{l.X, l.Y}, {l.Y, l.X}} {
+								if s0, ok := core.ConstString(pr[1]); ok && s0 == "" {
+									if fr, ok := core.AsFieldLoad(pr[0]); ok && fr.Field == "Subtype" && core.Path(elemOf(fr.Base)) == bp {
+										empty = true
+									}
+								}
+							}
+						}
+					}
+					if !empty {
+						bad = fmt.Sprintf("%s cannot carry a subtype, and the value of %s is handed to it without its Subtype having been tested empty", cal.Name(), bp)
+					}
+				}
+				_ = base
+			}
+			c.R.Func(core.FuncName(f))
+			c.R.Add("OPTDELEG", fmt.Sprintf("%s|value-rendered-as-option#%d|%s", core.FuncName(f), n, cal.Name()), core.FuncName(f), p.InstrPos(ci), bad == "",
+				"a Value turned into an option keeps its labels: the constructor receives the value's own name and subtype, and a constructor without a subtype parameter is used only for a value whose subtype was tested empty",
+				ternary(bad == "", "labels preserved", bad))
+		}
+	}
 }
 
 // runSubtableInstall (OPTORDER): the inner map of a by-subtype table is installed only where none is present yet.
@@ -409,5 +544,71 @@ func (c *Ctx) runSubtableInstall() {
 				"the inner map of a by-subtype table is installed only where the builder has none for that key yet (entries under one name or type accumulate; a fresh map would drop the subtypes recorded earlier)",
 				ternary(absent != "", "under "+absent, fr.Field+"["+keyPath+"] is replaced by a new map without testing for an existing one"))
 		})
+	}
+}
+
+// runBuilderOrigin (OPTORDER): every option builder the graph builder works from was produced by the defaults merger
+// (the Func's construction defaults followed by the options of this call), never by applying the call's options
+// alone — otherwise defaults given to NewFunc do not "apply otherwise" on that path (Redefine planning its inputs
+// from a builder made of its own options only turns every defaulted parameter into a required input).
+func (c *Ctx) runBuilderOrigin() {
+	p := c.P
+	gb := p.MustRole("graphBuilder")
+	merger := p.MustRole("defaultsMerger")
+	applier := p.MustRole("optionApplier")
+	if gb == nil || merger == nil || applier == nil {
+		return
+	}
+	// the builder parameter of the graph builder
+	bidx := -1
+	for i, prm := range gb.Params {
+		if core.TypeStr(prm.Type()) == "*argBuilder" {
+			bidx = i
+		}
+	}
+	if bidx < 0 {
+		return
+	}
+	n := 0
+	for _, site := range p.Callers(gb) {
+		if bidx >= len(site.Common().Args) {
+			continue
+		}
+		n++
+		// follow the builder back through parameters of private steps to the call that made it
+		v := site.Common().Args[bidx]
+		from := ""
+		for i := 0; i < 6 && v != nil; i++ {
+			v = core.Strip(v)
+			if e, ok := v.(*ssa.Extract); ok {
+				v = e.Tuple
+				continue
+			}
+			if prm, ok := v.(*ssa.Parameter); ok {
+				sites := p.Callers(prm.Parent())
+				if len(sites) != 1 || !p.PrivateHelper(prm.Parent()) {
+					from = "parameter " + prm.Name() + " of " + core.FuncName(prm.Parent())
+					break
+				}
+				for j, q := range prm.Parent().Params {
+					if q == prm && j < len(sites[0].Common().Args) {
+						v = sites[0].Common().Args[j]
+					}
+				}
+				continue
+			}
+			if cl, ok := v.(*ssa.Call); ok {
+				if cal := cl.Common().StaticCallee(); cal != nil {
+					from = core.FuncName(cal)
+					if cal == merger {
+						from = "merger"
+					}
+				}
+			}
+			break
+		}
+		c.R.Add("OPTORDER", fmt.Sprintf("%s|graph-builder-works-from-merged-options#%d", core.FuncName(site.Parent()), n), core.FuncName(site.Parent()), p.InstrPos(site), from == "merger",
+			"the option builder handed to the graph builder comes from the defaults merger (construction defaults, then this call's options)",
+			ternary(from == "merger", "built by the merger", "built by "+ternary(from == "", core.Path(site.Common().Args[bidx]), from)))
 	}
 }
